@@ -2,7 +2,8 @@
   Driver/ExtMapFold.lean — `historyMap` (C03): a history's mapping (a list of step maps, no
   mirrors) asked at every position `0 … n` with both association sides: `Mapping.map`,
   `Mapping.map_result` (position and deletion info) and the folds of PM/MapFold.lean
-  (`mapFold`, `deletedFold`, `coveredFold`), plus `noTouch` of every map.
+  (`mapFold`, `deletedFold`, `coveredFold`), plus `noTouch` of every map; `aroundHyps`: the executable
+  side conditions `aroundWFB` / `aroundOKB` / `gapSepB` of the C03 theorems on a concrete step.
 -/
 import Lean.Data.Json
 import PM
@@ -29,4 +30,9 @@ def handleMapFold (st : St) (op : String) (j : Json) : Option (D (St × Json)) :
         Json.bool (coveredFold ms a p)])).toArray
     return (st, ok (Json.mkObj [("left", one (-1)), ("right", one 1),
       ("noTouch", Json.arr (ms.map (fun m => Json.bool m.noTouch)).toArray)]))
+  | "aroundHyps" => some do
+    -- the side conditions of the C03 theorems, evaluated on a concrete step
+    let stp ← step (← field j "step")
+    return (st, ok (Json.mkObj [("wf", Json.bool (aroundWFB stp)), ("ok", Json.bool (aroundOKB stp)),
+      ("sep", Json.bool (gapSepB stp)), ("noTouch", Json.bool stp.getMap.noTouch)]))
   | _ => none
